@@ -16,6 +16,7 @@ import Driver.Block
 import Driver.C18
 import Driver.CafW64
 import Driver.Routes
+import Driver.World
 open Sf
 
 def lawOf (s : String) : Option G711.Law :=
@@ -76,4 +77,5 @@ def main (args : List String) : IO UInt32 := do
   | "caf" :: rest => CafW64Driver.cafCmd rest
   | "w64" :: rest => CafW64Driver.w64Cmd rest
   | "routes" :: rest => RoutesDriver.cmd rest
+  | "world" :: rest => WorldDriver.cmd rest
   | _ => IO.eprintln "usage: sfmodel <g711|...> ..."; return 2
